@@ -118,6 +118,11 @@ def random_program(rng, idx=0, max_series=6, allow3=True):
         if starts[s] == "0" and rng.random() < 0.35:
             adj_copy[s] = s + "†"
             order.append(s + "†")
+    # a Hermitian series Hm = A + A.adj (every block pair (i,j),(j,i) adjoint) for products X† @ Hm (@ Hm) @ X of
+    # three and four factors, which are Hermitian as a whole although no partial product is
+    long_x = rng.choice(sorted(adj_copy)) if (adj_copy and rng.random() < 0.6) else None
+    if long_x is not None:
+        order.insert(0, "Hm")
     zero0 = {s for s in names if starts[s] == "0"} | set(adj_copy.values())
     full_start = {s for s in names if starts[s] in ("0", "in")}
     pos = {s: i for i, s in enumerate(order)}
@@ -144,6 +149,12 @@ def random_program(rng, idx=0, max_series=6, allow3=True):
         if " @ ".join(fs) not in [" @ ".join(p[0]) for p in products]:
             products.append((fs, herm))
 
+    herm_long = None
+    if long_x is not None and not (stress and long_x == names[0]):
+        fs = [adj_copy[long_x], "Hm"] + (["Hm"] if rng.random() < 0.35 else []) + [long_x]
+        products.append((fs, rng.random() < 0.8))
+        herm_long = " @ ".join(fs)
+
     def usable_products(s):
         out = []
         for fs, _ in products:
@@ -157,6 +168,9 @@ def random_program(rng, idx=0, max_series=6, allow3=True):
     lines_of = {}
     for s in order:
         body = []
+        if s == "Hm":
+            lines_of[s] = ["%s + %s.adj" % (_q(inputs[0]), _q(inputs[0]))]
+            continue
         if s in adj_copy.values():
             x = [k for k, v in adj_copy.items() if v == s][0]
             lines_of[s] = ["%s.adj" % _q(x)]
@@ -227,7 +241,7 @@ def random_program(rng, idx=0, max_series=6, allow3=True):
     js = TA.translate_source(source)[0]
     return dict(name=fname, source=source, json=js, inputs=inputs, series=order,
                 products=[" @ ".join(fs) for fs, _ in products], outputs=outs,
-                stress_pair=(names[1], names[0]) if stress else None)
+                stress_pair=(names[1], names[0]) if stress else None, herm_long=herm_long)
 
 
 def program_from_source(source):
